@@ -272,31 +272,36 @@ let handle_sys case obs =
     let ea = p_list na p_ep st in let eb = p_list nb p_ep st in
     let links = p_list na (fun st -> p_list nb (fun st -> let r = p_bool st in let b = p_bool st in (r, b)) st) st in
     let topo = { t_a = ea; t_b = eb; t_links = links } in
-    let strip t = (* "... # n" *)
+    let strip t = (* "... # n m": STUN and application datagrams in flight after the operation *)
       let rec go acc = function
-        | ["#"; n] -> (List.rev acc, int_of_string n)
+        | ["#"; n; m] -> (List.rev acc, int_of_string n, int_of_string m)
+        | ["#"; n] -> (List.rev acc, int_of_string n, -1)
         | x :: r -> go (x :: acc) r
-        | [] -> (List.rev acc, -1) in
+        | [] -> (List.rev acc, -1, -1) in
       go [] t in
     let p_sysop t = match t with
-      | "A" :: r -> SApi (true, p_op { toks = r })
-      | "B" :: r -> SApi (false, p_op { toks = r })
-      | ["DV"; i] -> SDeliver (nat_of_int (int_of_string i))
-      | ["DR"; i] -> SDrop (nat_of_int (int_of_string i))
-      | ["DU"; i] -> SDup (nat_of_int (int_of_string i))
+      | "A" :: r -> DSys (SApi (true, p_op { toks = r }))
+      | "B" :: r -> DSys (SApi (false, p_op { toks = r }))
+      | ["DV"; i] -> DSys (SDeliver (nat_of_int (int_of_string i)))
+      | ["DR"; i] -> DSys (SDrop (nat_of_int (int_of_string i)))
+      | ["DU"; i] -> DSys (SDup (nat_of_int (int_of_string i)))
+      | ["XV"; i] -> DDeliver (nat_of_int (int_of_string i))
+      | ["XR"; i] -> DDrop (nat_of_int (int_of_string i))
+      | ["XU"; i] -> DDup (nat_of_int (int_of_string i))
       | _ -> failwith "bad system op" in
     let rec len = function [] -> 0 | _ :: t -> 1 + len t in
     let first_bad = ref (-1) in
     let k = ref 0 in
-    let sy = List.fold_left (fun sy t ->
-        let (ot, n) = strip t in
-        let sy' = sys_step cfga cfgb topo sy (p_sysop ot) in
-        if n >= 0 && len sy'.sy_net <> n && !first_bad < 0 then first_bad := !k;
-        incr k; sy') (sys_init lua lpa lub lpb) opts in
+    let d = List.fold_left (fun d t ->
+        let (ot, n, m) = strip t in
+        let d' = dsys_step cfga cfgb topo d (p_sysop ot) in
+        if !first_bad < 0 && ((n >= 0 && len d'.d_sys.sy_net <> n) || (m >= 0 && len d'.d_net <> m)) then first_bad := !k;
+        incr k; d') (dsys_init lua lpa lub lpb) opts in
+    let sy = d.d_sys in
     if !first_bad >= 0 then
       (["NETLEN_DIFFERS_AT_OP"; string_of_int !first_bad] @ List.nth opts !first_bad, [])
     else
-    (s_snap (snap_of_state sy.sy_a) @ ["|"] @ s_snap (snap_of_state sy.sy_b) @ ["|"; string_of_int (len sy.sy_net)], [])
+    (s_snap (snap_of_state sy.sy_a) @ ["|"] @ s_snap (snap_of_state sy.sy_b) @ ["|"; string_of_int (len sy.sy_net); string_of_int (len d.d_net)], [])
   | _ -> failwith "bad system case"
 
 let handle case obs = match case with
